@@ -3,9 +3,10 @@ import Sentinel.Model.Breaker
 /-! Driver for C03: `model` = the breaker machine over the code-shaped leap array (`laOps`),
     `spec` = the same machine over the bare history of completions (`histOps`).
 
-Ops: `clock <ms>`, `load <rule>…` (rule = `res,kind,retry,minReq,statI,buckets,maxRt,f:<thr bits>,probeNum`,
+Ops: `clock <ms>`, `load <rule>…` / `loadres <res> <rule>…` (any number of times: `LoadRules` / `LoadRulesOfResource`; valid
+rules are numbered consecutively over all loads; result = number of valid rules), rule syntax: `load <rule>…` (rule = `res,kind,retry,minReq,statI,buckets,maxRt,f:<thr bits>,probeNum`,
 `kind` 0 slow-ratio / 1 error-ratio / 2 error-count) `=> <number of valid rules>`, `entry <id> <res> [#<batch>]`
-`=> pass | block <rule index>`, `exit <id> [err]`, `state <res>` `=> [C,O,H…]`, `log` `=> [events since the last log]`. -/
+`=> pass | block <rule index>`, `exit <id> [err]`, `state <res>` `=> [<id><C|O|H>…]` (every identity ever handed out for the resource), `log` `=> [events since the last log]`. -/
 namespace Sentinel.Drv.C03
 open Sentinel.LA Sentinel.CB Sentinel.Drv
 
@@ -39,7 +40,7 @@ def parseRule? (s : String) : Option PRule :=
       if res.isEmpty then none else
       kind?.map fun kind =>
         { rule := { res := res, kind := kind, retryMs := retry, minReq := minReq, statI := statI, buckets := buckets,
-                    maxRt := maxRt, probeNum := probe, reached := reachedF kind thr },
+                    maxRt := maxRt, probeNum := probe, thrBits := thr.toBits.toNat, reached := reachedF kind thr },
           thr := thr, valid := validRule kind retry statI thr }
     | _, _, _, _, _, _, _, _ => none
   | _ => none
@@ -70,27 +71,49 @@ def showEv (kinds : List (Nat × Kind)) (e : Ev) : String :=
 
 structure DSt (W : Type) where
   s : Sys W := {}
-  loaded : Bool := false
-  pending : List Ev := []         -- listener callbacks not yet shown by `log`
+  pending : List String := []              -- listener callbacks not yet shown by `log` (rendered when emitted)
+  ids : List (Nat × String) := []          -- every identity handed out so far (valid rules of all loads) with its resource
+  last : List (Nat × St) := []             -- last known state of every breaker that ever existed
 
 def kindsOf {W} (s : Sys W) : List (Nat × Kind) := s.brs.map fun b => (b.id, b.rule.kind)
 
-/-- number the rules by their position in the load list, keep the valid ones -/
-def numbered (rs : List PRule) : List (Nat × PRule) := (List.range rs.length).zip rs |>.filter (·.2.valid)
+/-- remember the state of every live breaker (dead ones keep the state they had when they were dropped) -/
+def remember {W} (last : List (Nat × St)) (s : Sys W) : List (Nat × St) :=
+  s.brs.map (fun b => (b.id, b.st)) ++ last.filter fun p => !(s.brs.any fun b => b.id == p.1)
 
-def stepD {W} (ops : Rule → WinOps W) (mkB : Nat → Rule → Nat → Brk W) (d : DSt W) (ts : List String) (_ : String) :
+/-- run one op, render its callbacks with the strategies of the breakers that emitted them -/
+def exec {W} (ops : Rule → WinOps W) (d : DSt W) (o : Op) : DSt W × Out :=
+  let r := step ops d.s o
+  let kinds := kindsOf d.s ++ kindsOf r.1
+  ({ d with s := r.1, pending := d.pending ++ r.2.evs.map (showEv kinds), last := remember d.last r.1 }, r.2)
+
+def stepD {W} (ops : Rule → WinOps W) (d : DSt W) (ts : List String) (_ : String) :
     DSt W × Option String :=
   match ts with
   | ["clock", t] => match t.toNat? with
-      | some t => if t < d.s.now ∨ t = 0 then (d, some "bad-op") else ({ d with s := (step ops d.s (.clock t)).1 }, none)
+      | some t => if t < d.s.now ∨ t = 0 then (d, some "bad-op") else ((exec ops d (.clock t)).1, none)
       | none => (d, some "bad-op")
   | "load" :: rs =>
-      if d.loaded ∨ d.s.now = 0 then (d, some "bad-op") else
+      -- `LoadRules`: the valid rules get the identities `next, next+1, …` in list order
+      if d.s.now = 0 then (d, some "bad-op") else
       match parseRules? rs with
       | none => (d, some "bad-op")
       | some prs =>
-        let brs := (numbered prs).map fun p => mkB p.1 p.2.rule d.s.now
-        ({ d with s := { d.s with brs := brs }, loaded := true }, some (toString brs.length))
+        let vs := (prs.filter (·.valid)).map (·.rule)
+        let ids := (List.range vs.length).zip vs |>.map fun p => (d.s.next + p.1, p.2.res)
+        let d' := (exec ops d (.load vs)).1
+        ({ d' with ids := d.ids ++ ids }, some (toString vs.length))
+  | "loadres" :: res :: rs =>
+      -- `LoadRulesOfResource(res, …)`; rules naming another resource are not part of the op language
+      if d.s.now = 0 ∨ res.isEmpty then (d, some "bad-op") else
+      match parseRules? rs with
+      | none => (d, some "bad-op")
+      | some prs =>
+        if prs.any (fun p => p.rule.res != res) then (d, some "bad-op") else
+        let vs := (prs.filter (·.valid)).map (·.rule)
+        let ids := (List.range vs.length).zip vs |>.map fun p => (d.s.next + p.1, p.2.res)
+        let d' := (exec ops d (.loadRes res vs)).1
+        ({ d' with ids := d.ids ++ ids }, some (toString vs.length))
   | "entry" :: id :: res :: rest =>
       -- optional `#<n>` = `WithBatchCount(n)`; the machine ignores it
       let batch? : Option Nat := match rest with
@@ -99,27 +122,29 @@ def stepD {W} (ops : Rule → WinOps W) (mkB : Nat → Rule → Nat → Brk W) (
         | _ => none
       match id.toNat?, batch? with
       | some id, some batch =>
-        let r := step ops d.s (.entry id res batch)
+        let r := exec ops d (.entry id res batch)
         let txt := match r.2.dec with
           | some (some k) => s!"block {k}"
           | _ => "pass"
-        ({ d with s := r.1, pending := d.pending ++ r.2.evs }, some txt)
+        (r.1, some txt)
       | _, _ => (d, some "bad-op")
   | "exit" :: id :: rest => match id.toNat? with
       | some id =>
         if rest ≠ [] ∧ rest ≠ ["err"] then (d, some "bad-op") else
-        let r := step ops d.s (.exit id (rest == ["err"]))
-        ({ d with s := r.1, pending := d.pending ++ r.2.evs }, none)
+        ((exec ops d (.exit id (rest == ["err"]))).1, none)
       | none => (d, some "bad-op")
   | ["state", res] =>
-      (d, some (showList ((d.s.brs.filter (·.rule.res = res)).map fun b => stCh b.st)))
-  | ["log"] => ({ d with pending := [] }, some (showList (d.pending.map (showEv (kindsOf d.s)))))
+      -- every identity ever handed out for this resource, in order, with its last known state
+      -- (never bound to a breaker — the old equal breaker was kept — or never moved: Closed)
+      (d, some (showList ((d.ids.filter (·.2 = res)).map fun p =>
+        s!"{p.1}{stCh (((d.last.find? (·.1 = p.1)).map (·.2)).getD .closed)}")))
+  | ["log"] => ({ d with pending := [] }, some (showList d.pending))
   | _ => (d, some "bad-op")
 
 def run (mode : String) : IO Unit :=
   if mode == "spec" then
-    loop ({} : DSt (List (Nat × Cnt))) (stepD histOps fun id r _ => Brk.newAbs id r)
+    loop ({} : DSt (List (Nat × Cnt))) (stepD histOps)
   else
-    loop ({} : DSt (Arr Cnt)) (stepD laOps Brk.new)
+    loop ({} : DSt (Arr Cnt)) (stepD laOps)
 
 end Sentinel.Drv.C03
